@@ -41,7 +41,7 @@ def plan(tier, seed):
             shards.append({"kind": "perms", "tier": tier, "seed": seed, "shard": i, "nfrag": nf, "subprocess": True})
         shards.append({"kind": "limit", "tier": tier, "seed": seed, "deliver_limit": True, "subprocess": True})
         for i in range(24):
-            shards.append({"kind": "faults", "tier": tier, "seed": seed, "shard": i, "n": 25, "subprocess": True})
+            shards.append({"kind": "faults", "tier": tier, "seed": seed, "shard": i, "n": 80, "subprocess": True})
     return shards
 
 
